@@ -64,9 +64,11 @@ func checkLinearizable(s *vsimcore.Sim, keyPrefix string, model porcupine.Model,
 
 // guard runs f and converts a panic into a violation of the given key (for code that runs on the
 // scheduler's own goroutine; panics in system goroutines kill the worker and are seen by the runner).
-func guard(s *vsimcore.Sim, key string, what func() string, f func()) {
+func guard(s *vsimcore.Sim, key string, what func() string, f func()) (ok bool) {
+	ok = true
 	defer func() {
 		if r := recover(); r != nil {
+			ok = false
 			st := string(debug.Stack())
 			fn := ""
 			for _, l := range strings.Split(st, "\n") {
@@ -83,4 +85,5 @@ func guard(s *vsimcore.Sim, key string, what func() string, f func()) {
 		}
 	}()
 	f()
+	return ok
 }
